@@ -9,16 +9,18 @@ def plan(tier, seed):
         groups.append(KGroup("D", ints, timeout=900, jobs=8, mem_gb=8, label="integers"))
         fl = [H("pf::p2_f32_4", "float partial/complete relation, numerics stubbed deterministically", "arbitrary bytes len<=4")]
         groups.append(KGroup("D", fl, timeout=1500, jobs=2, mem_gb=8, stubbing=True, label="floats"))
+        groups.append(KGroup("F", [H("c13::seprel_f64_t_4", "same relation under a trailing-separator format", "alphabet {+-019._ex}, len<=4")], timeout=2400, jobs=1, mem_gb=10, stubbing=True, label="floats, separator format"))
     else:
         ints = [H("c04::r1_%s_4" % t, "relation", "arbitrary bytes len<=4") for t in INT_TYPES]
         groups.append(KGroup("D", ints, timeout=7200, jobs=10, mem_gb=12, label="integers"))
         fl = [H("pf::p2_%s_%d" % (f, n), "relation", "len<=%d" % n) for f in ("f32", "f64") for n in (4, 5)]
         groups.append(KGroup("D", fl, timeout=7200, jobs=4, mem_gb=12, stubbing=True, label="floats"))
+        groups.append(KGroup("F", [H("c13::seprel_f64_%s_4" % c, "same relation under a separator format", "alphabet {+-019._ex}, len<=4") for c in ("t", "iltc", "l", "i")], timeout=7200, jobs=4, mem_gb=12, stubbing=True, label="floats, separator formats"))
     return {
         "kani": groups,
         "functions_encoded": ["lexical_core::{parse,parse_partial} (integers, floats)"],
         "bounds": ["arbitrary byte strings up to the stated length, STANDARD format, default options"],
-        "outside_claim": ["formats with digit separators / base suffixes (see C13)", "custom punctuation options", "longer inputs"],
+        "outside_claim": ["separator formats beyond the listed uniform ones, base suffixes", "custom punctuation options", "longer inputs"],
         "stubs_and_assumes": ["float harnesses stub the numeric back end by a deterministic function of the parsed Number, so equal decompositions give equal bits"],
         "assumptions": [],
     }
